@@ -279,6 +279,12 @@ def run_c09(ctx, spec):
                             r2, aux2 = o2.get_readable()
                             ok = ok and [float(aux2[k_]) for k_ in ("Success", "Connection Error", "Permission Error",
                                                                      "Undefined Error")] == flags_
+                            # the readable host rows say what the array's entries say (also where nothing was observed)
+                            p0_ = lay[0] + lay[1] + 6
+                            for rd_, raw_ in zip(r2, np.asarray(o2.numpy())[:-1]):
+                                for j_, n_ in enumerate(list(osn) + list(srvn) + list(procn)):
+                                    if len(set(list(osn) + list(srvn) + list(procn))) == len(osn) + len(srvn) + len(procn):
+                                        ok = ok and bool(rd_[n_]) == bool(raw_[p0_ + j_])
                         ok = ok and np.array_equal(o.numpy_flat(), o.tensor.flatten(order="C"))
                         ok = ok and o.tensor.shape == (t.shape[0] + 1, t.shape[1])
                         aux = [float(x) for x in o.tensor[-1]]
@@ -445,13 +451,17 @@ def run_c10(ctx, spec):
                 if not (ok and obs_ok(obs)):
                     out["violations"].append(viol(pid, "reset() does not return a Gymnasium (observation, info) pair with "
                                                        "an observation inside the space", impl=str(r)[:500], **where))
-                for _ in range(nsteps):
+                for step_no in range(nsteps):
                     a = env.action_space.sample()
+                    if step_no == 0 and modes[1] and env.action_space.contains(True):
+                        a = bool(step_no == 0)          # bool is an int: True is the member 1
                     # the same member in the other forms the space contains: other integer dtypes (signed and
                     # unsigned), Python ints / lists / tuples
-                    if rng.random() < 0.5:
+                    if rng.random() < 0.5 and not isinstance(a, bool):
                         if modes[1]:
                             alts = [int(a), np.int32(a), np.int64(a)] + ([np.uint8(a)] if int(a) < 256 else []) + [np.uint32(a), np.uint16(a % 65536)]
+                            if int(a) in (0, 1):
+                                alts += [bool(int(a)), np.bool_(bool(int(a)))]        # bool is an int: the space contains it
                         else:
                             alts = [np.asarray(a, dtype=dt) for dt in (np.int32, np.uint8, np.uint16, np.uint32, np.int8)
                                     if int(np.max(a)) <= np.iinfo(dt).max] + [list(int(x) for x in a), tuple(int(x) for x in a)]
